@@ -148,6 +148,13 @@ def gen_cases(rng, tier, scale):
                 items = [_x(head), _t(open_, True), _x('A\n', live=live), _t(link, True), _x('\nB\n', live=not live), _t('/' + open_[1:].split(' ')[0], True), _x('\ndone')]
                 cases.append(rcase(f'ie{j7}', _src(items), {'t': True, 'f': False, 'l': [1]}, entry=0, kind='whole', s=head, exp=_exp(items), tags=['inline-open-standalone-else']))
                 j7 += 1
+    # an escape inside a raw block body is resolved like outside (the backslash goes, the braces stay literal)
+    for j8, (tpl, exp) in enumerate([('{{{{raw}}}}\\{{x}}{{{{/raw}}}}', '{{x}}'), ('{{{{raw}}}} a \\{{x}} b {{y}} {{{{/raw}}}}|\\{{z}}', ' a {{x}} b {{y}} |{{z}}'),
+                                     ('A{{{{raw}}}}\n\\{{#if}} é\n{{{{/raw}}}}B', None), ('{{{{raw}}}}\\\\{{x}}{{{{/raw}}}}', None)]):
+        if exp is None:
+            cases.append(rcase(f're{j8}', tpl, {'x': 'X', 'y': 'Y', 'z': 'Z'}, entry=4, kind='corr', s='\\', exp=None, tags=['escape-in-raw-block']))
+        else:
+            cases.append(rcase(f're{j8}', tpl, {'x': 'X', 'y': 'Y', 'z': 'Z'}, entry=4, kind='whole', s='\\', exp=exp, tags=['escape-in-raw-block']))
     # a lone CR (not followed by LF) is ordinary text: it is never removed, also not directly after a tag that
     # stands at the start of a line
     for j2, (tpl, exp) in enumerate([('{{! note }}\rbody', '\rbody'), ('{{#if t}}\rx{{/if}}', '\rx'), ('{{{{raw}}}}\rz{{{{/raw}}}}', '\rz'),
@@ -158,6 +165,8 @@ def gen_cases(rng, tier, scale):
 
 def oracle(c, io, mo):
     r = res_of(io)
+    if c['kind'] == 'corr':
+        return None          # decided by the correspondence alone
     if r['kind'] != 'ok':
         return f'expected the text {c["exp"]!r}, got {r.get("reason", r["kind"])} {r.get("payload","")}'
     if r['out'] != c['exp']:
